@@ -14,7 +14,9 @@ RULES = list(C.RULES)
 DOCS = [["/etc/leading/slash"], [" ends with a star *"], ["*/"], [" first", "/second starts with a slash", " third */ closes"],
         ["\n block with\n/slash/line\n and */ inside\n"], [" merge pattern } & { inside"], ["/**/"], ["/"],
         [" one line"], [" first", " second"], [" with `code` and <b>tags</b>"], ["no leading space"], [" contains */ a terminator"],
-        [" quote \" and backslash \\ "], ["\n multi\n line block\n "], [" unicode ü → ✓"], [""], [" export type Fake = 1;"]]
+        [" quote \" and backslash \\ "], ["\n multi\n line block\n "], [" unicode ü → ✓"], [""], [" export type Fake = 1;"],
+        # one attribute holding several lines (the `/** .. */` branch of parse_docs) x what it begins / ends with
+        ["/etc/app/limits.toml\nsecond line"], ["/\n"], ["/**/\n/"], ["*/\n/"], [" a\n/b\n*/c"], ["*\n"], ["/*\n*/"], [" x\n *"]]
 EXPORT_TO = [None, None, None, "sub/", "nested/deep/", "custom/File.ts", "../up/", "shared.ts", "shared.ts", "sub/shared2.ts"]
 
 
@@ -132,6 +134,11 @@ class Gen:
                 return f
         if r.random() < 0.05:                       # type override: excludes as / inline / flatten / optional
             f["type"] = r.choice(["string", "Array<number>", "{ a: number }", "unknown"])
+            if r.random() < 0.7:                    # an assertion that is true of what serde writes: values stay checkable
+                f["ty"], f["type"] = r.choice([(("leaf", "String"), "string"), (("vec", ("leaf", "i32")), "Array<number>"),
+                                               (("leaf", "bool"), "boolean"), (("option", ("leaf", "u8")), "number | null"),
+                                               (("tuple", [("leaf", "u8"), ("leaf", "String")]), "[number, string]")])
+                f["sound"] = True
             if named and r.random() < 0.3:
                 f["rename"] = r.choice(RENAMES[:-1])
             return f
@@ -146,6 +153,9 @@ class Gen:
             f["rename"] = r.choice(RENAMES[:-1])
         if r.random() < 0.05 and f["optional"] is None:
             f["as_"] = self.ty(1, params)
+            if r.random() < 0.6:                    # a type with the same representation: values stay checkable
+                f["as_"] = ("wrap", "Box", f["ty"])
+                f["sound"] = True
             f["as_text"] = C.rust_ty(f["as_"], [p for p in params])
         if named and r.random() < 0.15:
             f["docs"] = r.choice(DOCS)
@@ -371,6 +381,23 @@ class Gen:
                          tagging=("adjacent", "t", "c"), flatten_ok=False, no_ref=True))
         self.add(mk_enum("TagInline2", [mk_variant("A", "tuple", [mk_field("_0", ("named", "Foo", []), inline=True)])],
                          tagging=("internal", "t"), flatten_ok=False, no_ref=True))
+        # a struct carrying its own tag, flattened into a host, alone and next to other fields, and inlined
+        self.add(mk_struct("TagSt", "named", [mk_field("w", ("leaf", "u8"))], tag="kind", flatten_ok=True, no_ref=True))
+        self.add(mk_struct("TagSt0", "named", [], tag="kind", flatten_ok=True, no_ref=True))
+        self.add(mk_struct("TagHost", "named", [mk_field("id", ("leaf", "i32")), mk_field("t", ("named", "TagSt", []), flatten=True)],
+                           flatten_ok=False, no_ref=True))
+        self.add(mk_struct("TagHost0", "named", [mk_field("t", ("named", "TagSt0", []), flatten=True)], flatten_ok=False, no_ref=True))
+        self.add(mk_struct("TagHost2", "named", [mk_field("t", ("named", "TagSt", []), flatten=True), mk_field("u", ("named", "TagSt", []), inline=True),
+                                                 mk_field("v", ("vec", ("named", "TagSt0", [])))], flatten_ok=False, no_ref=True))
+        # enums with ONE live variant, flattened next to other fields: the single arm is itself a union
+        self.add(mk_enum("OneArm", [mk_variant("S", "tuple", [mk_field("_0", ("named", "Shape", []), inline=True)])],
+                         tagging=("untagged",), flatten_ok=True, no_ref=True))
+        self.add(mk_enum("OneArm2", [mk_variant("A", "named", [mk_field("c", ("named", "Color", []), inline=True)]),
+                                     mk_variant("Gone", "unit", skip=True)], tagging=("external",), flatten_ok=True, no_ref=True))
+        self.add(mk_struct("OneHost", "named", [mk_field("id", ("leaf", "u32")), mk_field("payload", ("named", "OneArm", []), flatten=True)],
+                           flatten_ok=False, no_ref=True))
+        self.add(mk_struct("OneHost2", "named", [mk_field("id", ("leaf", "u32")), mk_field("payload", ("named", "OneArm2", []), flatten=True),
+                                                 mk_field("more", ("named", "OneArm", []), flatten=True)], flatten_ok=False, no_ref=True))
         self.add(mk_struct("KfG1", "named", [mk_field("t", ("param", 0)), mk_field("u", ("option", ("param", 1)))],
                            params=[("T", None), ("U", ("named", "Foo", []))], flatten_ok=False, no_ref=True))
         self.add(mk_struct("KfG2", "named", [mk_field("h", ("named", "KfG1", [("leaf", "i32"), ("param", 0)]), inline=True)],
@@ -389,6 +416,10 @@ class Gen:
         self.add(mk_struct("Point2", "named", [mk_field("x", ("leaf", "f64")), mk_field("y", ("leaf", "f64"))],
                            export_to="geo/geometry.ts", flatten_ok=False, no_ref=True))
         self.add(mk_struct("Origin", "unit", [], export_to="geo/geometry.ts", flatten_ok=False, no_ref=True))
+        # the same shared file under another spelling (a `..` component), referring to its file-mates and to a type elsewhere
+        self.add(mk_struct("Segment", "named", [mk_field("a", ("named", "Point2", [])), mk_field("b", ("named", "Point", [("leaf", "i32")])),
+                                                mk_field("o", ("named", "Origin", [])), mk_field("c", ("named", "Color", []))],
+                           export_to="geo/sub/../geometry.ts", flatten_ok=False, no_ref=True))
         self.add(mk_struct("KfOpt", "named", [mk_field("x", ("param", 0))], params=[("T", None)], optional_fields=True,
                            flatten_ok=False, no_ref=True))
 
